@@ -6,7 +6,7 @@
 From Coq Require Import List NArith ZArith Bool Arith.
 Import ListNotations.
 From V Require Import Base.Prelude Base.TplRes Gen.Tokens Model.C31 Model.Tpl Model.TplCl Model.TplProd
-  Proofs.Tpl Proofs.TplTerm.
+  Proofs.Tpl Proofs.TplTerm Proofs.TplSafe.
 Local Open Scope nat_scope.
 
 (* termination with an explicit fuel bound, for every productive grammar, every input, every
@@ -19,6 +19,19 @@ Proof. exact match_terminates. Qed.
 Theorem C28_result_stable : forall rk nl env toks doc f, productive rk nl env = true ->
   fuel_bound rk env toks <= f -> match_doc env toks f doc = match_doc env toks (fuel_bound rk env toks) doc.
 Proof. exact match_result_stable. Qed.
+
+(* matching never panics either: every grammar cl.NewEx returns has one stop flag per choice option
+   (CheckConflicts), and on scanner tokens no index leaves the input — for ANY compiled grammar *)
+Theorem C28_compiled_match_no_panic : forall unq rs env doc toks f s,
+  compile unq rs = Ok (Some (env, doc)) -> forallb tok_ok toks = true ->
+  run env toks f (SM (MVar s) 0) <> Panic.
+Proof. exact compiled_match_no_panic. Qed.
+
+(* together: on a compiled productive grammar Doc.Match RETURNS (n, result, err) within the bound *)
+Theorem C28_compiled_productive_match_returns : forall unq rs env doc rk nl toks,
+  compile unq rs = Ok (Some (env, doc)) -> productive rk nl env = true -> forallb tok_ok toks = true ->
+  exists r, match_doc env toks (fuel_bound rk env toks) doc = Ok r.
+Proof. exact compiled_productive_match_returns. Qed.
 
 (* The property as stated needs "compiles -> productive".  The faithful model refutes it, exactly
    as the implementation does (known findings): both grammars compile, have no certificate, and
@@ -57,5 +70,7 @@ Proof. eexists. vm_compute. reflexivity. Qed.
 
 Print Assumptions C28_match_terminates.
 Print Assumptions C28_result_stable.
+Print Assumptions C28_compiled_match_no_panic.
+Print Assumptions C28_compiled_productive_match_returns.
 Print Assumptions C28_compile_accepts_nullable_rep_refuted.
 Print Assumptions C28_compile_accepts_left_rec_refuted.
